@@ -9,7 +9,7 @@ META = dict(
          "(spec/Wheel.tla via WheelGen.tla) up to 2-3 scheduling operations over 2 keys with every delay up to "
          "several revolutions and every phase of the wheel, plus seeded simulation of longer behaviours; each "
          "behaviour is executed on the real TimingWheel (hand-driven ticker) and every tick's fired set, every "
-         "error class and every drain set is compared with the specification. WheelImpl.tla (slots/circles "
+         "error class and every drain set is compared with the specification; further replay modes: callbacks still running while later ticks fire, blocks of 250 timers across the key index's compaction thresholds, delays that are not whole intervals, and Drain callbacks held (blocks of 12 timers) while more ticks than any pending delay are offered. WheelImpl.tla (slots/circles "
          "mechanism) is model-checked to refine Wheel.tla.",
     note="Trusted: TLC, the Go driver's barrier (run loop is sequential; goroutine count returns to baseline), "
          "Go runtime. Delays below one interval and invalid arguments after Stop are outside the statement and "
@@ -84,6 +84,11 @@ def run(ctx):
             # the same behaviours with callbacks that are still running while later ticks fire
             ctx.replay(PKG, OVERLAY, "^TestVerifC10$", path, label=name + "-slowcb", env=dict(VERIF_SLOTS=n, VERIF_GATED=1),
                        shards=16, binp=binp)
+        if name in ("g3a", "g4"):
+            # behaviours with a Drain: blocks of 12 timers per key (more than the drain workers), the drain
+            # callbacks held while more ticks than any pending delay are offered
+            ctx.replay(PKG, OVERLAY, "^TestVerifC10$", path, label=name + "-draingate", env=dict(VERIF_SLOTS=n, VERIF_DRAINGATE=12),
+                       shards=16, binp=binp)
     bulk(ctx, binp)
     for name, n, kw, num, depth in sims:
         cases = gen(ctx, name, n, simulate=num, depth=depth, **kw)
@@ -123,6 +128,8 @@ def replay(ctx, rp):
     env = dict(VERIF_SLOTS=n)
     if (rp.get("key") or "").startswith("C10:bulk"):
         env["VERIF_BULK"] = 250
+    if (rp.get("key") or "").startswith("C10:drain:"):
+        env["VERIF_DRAINGATE"] = 12
     if (rp.get("key") or "").startswith("C10:slow-callbacks"):
         env["VERIF_GATED"] = 1
     ctx.replay(PKG, OVERLAY, "^TestVerifC10$", path, label="replay", env=env)
